@@ -439,39 +439,42 @@ def classify(relation, comp, what, changed_fields):
     return f'{relation}-shares:{comp}'
 
 
+CAP = [6]
+
+
 def violate(rep, key, what, case):
     """Record at most a handful of violations per key: the known findings fire hundreds of times and must not crowd a
     new key out of the framework's global cap."""
-    if rep.dist['violation:' + key] < 6:
+    if rep.dist['violation:' + key] < CAP[0]:
         rep.violate(key, what, case)
     else:
         rep.dist['violation:' + key] += 1
 
 
 def twin(rep, relation, mutated_name, mutated, observed_name, observed, case, rebuild):
-    """Mutate every mutable component of `mutated` (one at a time, on fresh twins), observe `observed`."""
+    """Mutate every mutable component of one side, observe the other after each mutation.  Two passes on fresh
+    pairs: API-level mutations first (they need a consistent object), then one generic in-place mutation of every
+    mutable object reachable from the mutated side."""
     n = 0
-    # the list of mutations is taken once; each one runs on a fresh pair so that effects do not accumulate
-    catalogue = [(c, w) for c, w, _ in mutators(mutated)]
-    for i, (comp, what) in enumerate(catalogue):
+    for phase in ('api', 'generic'):
         m, o = rebuild()
-        muts = mutators(m)
-        if i >= len(muts) or muts[i][1] != what:
-            continue
+        muts = [t for t in mutators(m) if t[1].startswith(('api:', 'sub[')) == (phase == 'api')]
         before = hc.observe(o)
-        try:
-            muts[i][2]()
-        except Exception:   # noqa: BLE001  a mutation the object rejects is no mutation
-            continue
-        after = hc.observe(o)
-        n += 1
-        if before != after:
-            paths = hc.diff_paths(before, after)
-            fields = sorted({top_field(p) for p in paths})
-            key = classify(relation, comp, what, fields)
-            violate(rep, key, f'{relation}: mutating {mutated_name} ({what}) changed what is observed through '
+        for comp, what, fn in muts:
+            try:
+                fn()
+            except Exception:   # noqa: BLE001  a mutation the object rejects is no mutation
+                continue
+            after = hc.observe(o)
+            n += 1
+            if before != after:
+                paths = hc.diff_paths(before, after)
+                fields = sorted({top_field(p) for p in paths})
+                key = classify(relation, comp, what, fields)
+                violate(rep, key, f'{relation}: mutating {mutated_name} ({what}) changed what is observed through '
                         f'{observed_name}: {fields}', dict(case, pair=[relation, mutated_name, observed_name],
                                                             mutation=what))
+                before = after
     return n
 
 
@@ -658,8 +661,8 @@ def first_difference(model, real, cross=False):
 
 
 def run(ctx, rep):
-    n_prog = (260 if ctx.tier == 'quick' else 4000) * ctx.scale
-    n_oracle = (14 if ctx.tier == 'quick' else 400) * ctx.scale
+    n_prog = (400 if ctx.tier == 'quick' else 5000) * ctx.scale
+    n_oracle = (120 if ctx.tier == 'quick' else 2500) * ctx.scale
     rng = ctx.sub_rng('programs')
     batch = []
     for i in range(n_prog):
@@ -698,7 +701,7 @@ def run(ctx, rep):
     rep.notes.append(f'{n_prog} programs (T), twin oracle on the first {min(n_prog, n_oracle)} of them + fixed scenarios')
 
 
-def run_fixed(ctx, rep, case):
+def run_fixed(ctx, rep, case, batch):
     prep = Prepared(case)
     try:
         w, full, real = run_case(case, prep)
@@ -707,12 +710,18 @@ def run_fixed(ctx, rep, case):
             rep.disagree('program raised on the real code', case, 'model: no exception expected',
                          f'{type(e).__name__}: {e}')
         return
-    if not ctx.oracle_only:
-        compare_T(ctx, rep, [(case, full, real)])
+    batch.append((case, full, real))
     rep.evaluations += oracle(rep, case, prep)
 
 
 def fixed_scenarios(ctx, rep):
+    batch = []
+    fixed_scenarios_(ctx, rep, batch)
+    if not ctx.oracle_only and batch:
+        compare_T(ctx, rep, batch)
+
+
+def fixed_scenarios_(ctx, rep, batch):
     """Seed-independent part: every class style x mixin combination, every copy route, siblings and class."""
     for style in ['container', 'parser', 'explicit', 'inherit']:
         for alias in (False, True):
@@ -748,7 +757,7 @@ def fixed_scenarios(ctx, rep):
                 prog.append({'c': 'snap', 'roots': ['a', 'b', 'c0', cname]})
                 case = {'classes': {cname: spec}, 'prog': prog, 'roots': ['a', 'b', 'c0'], 'ncopies': 1}
                 with pristine_globals():
-                    run_fixed(ctx, rep, case)
+                    run_fixed(ctx, rep, case, batch)
                 rep.case(json.dumps(case, sort_keys=True), nontrivial=True)
                 rep.dist['fixed:' + style + (':alias' if alias else '') + (':tracer-' + tstyle if tracer else '')] += 1
     # linkers
@@ -766,22 +775,36 @@ def fixed_scenarios(ctx, rep):
                     {'c': 'snap', 'roots': ['l', 'c0', 'M', 'L']}]
             case = {'classes': classes, 'prog': prog, 'roots': ['a', 'b', 'l', 'c0'], 'ncopies': 1}
             with pristine_globals():
-                run_fixed(ctx, rep, case)
+                run_fixed(ctx, rep, case, batch)
             rep.case(json.dumps(case, sort_keys=True), nontrivial=True)
             rep.dist['fixed:linker:' + lstyle + (':alias' if alias else '')] += 1
 
 
 def replay(ctx, rep, case):
+    """Re-run the recorded case; only the recorded (pair, mutation) counts (the known findings fire on every case)."""
+    import framework
     with pristine_globals():
         try:
-            w, full, real = run_case(case)
+            prep = Prepared(case)
+            w, full, real = run_case(case, prep)
         except Exception as e:   # noqa: BLE001
             print('  program raised:', type(e).__name__, e)
+            if not diagnose_raise(rep, case, prep, e):
+                print('  (not attributable to shared state)')
             return
-        oracle(rep, case)
-        print('  impl :', real[:400])
+        tmp = framework.Report()
+        CAP[0] = 10 ** 9
+        try:
+            oracle(tmp, case, prep)
+        finally:
+            CAP[0] = 6
+        for v in tmp.violations:
+            same = (v['case'].get('pair') == case.get('pair') and v['case'].get('mutation') == case.get('mutation'))
+            if same or 'pair' not in case:
+                rep.violate(v['key'], v['what'], v['case'])
+        print('  impl :', real[:300])
         try:
             out = ctx.drive([hc.line(full)])[0]
-            print('  model:', '#'.join(hc.canon_model_snapshot(s) for s in out.split('%')[0].split('#'))[:400])
+            print('  model:', model_snaps(out)[0][:300])
         except Exception as e:  # noqa: BLE001
             print('  model: <driver unavailable>', e)
